@@ -11,10 +11,12 @@ import (
 	"time"
 
 	chandlers "github.com/mimecast/dtail/internal/clients/handlers"
+	"github.com/mimecast/dtail/internal/config"
 	"github.com/mimecast/dtail/internal/io/line"
 	"github.com/mimecast/dtail/internal/mapr"
 	maprserver "github.com/mimecast/dtail/internal/mapr/server"
 	"github.com/mimecast/dtail/internal/source"
+	"github.com/mimecast/dtail/verif/explore"
 	"github.com/mimecast/dtail/verif/vcontext"
 	"github.com/mimecast/dtail/verif/vrt"
 )
@@ -581,6 +583,84 @@ func c05Tables(shapes []string, n int, f func(lines []string)) {
 	rec(nil)
 }
 
+// c05Reporting: the client's periodic reporter may still be producing an interim result when the last connection
+// ends and the final result is taken; under ALL schedules within two deviations the final result must be the
+// central evaluation of everything the servers sent (every partial result counted exactly once).
+func c05Reporting(c *Ctx) {
+	for _, variant := range []string{"final-during-interim", "message-during-interim-then-final", "two-servers-and-interim"} {
+		variant := variant
+		sc := &explore.Scenario{Name: "client-reporting", Params: variant, Agg: "client-reporting", MaxSteps: 300000, Horizon: 10 * time.Minute}
+		sc.Run = func(cfg vrt.Config) (string, string, vrt.Result) {
+			var viol string
+			res := vrt.Run(cfg, func() {
+				args := DefaultArgs()
+				args.Logger = "none"
+				args.LogLevel = "error"
+				StartEnv(source.Client, &args, nil)
+				config.Client.TermColorsEnable = false
+				q, err := mapr.NewQuery("select count(x),sum(y) group by k")
+				if err != nil {
+					panic(err)
+				}
+				g := mapr.NewGlobalGroupSet()
+				msg := []byte("AGGREGATE|h|k∥1∥count(x)≔1∥sum(y)≔2∥\xac")
+				h0 := chandlers.NewMaprHandler("srv0", q, g)
+				h1 := chandlers.NewMaprHandler("srv1", q, g)
+				done := vrt.Make[struct{}]("joined", 4)
+				total := 0
+				final := ""
+				switch variant {
+				case "final-during-interim":
+					h0.Write(msg)
+					h1.Write(msg)
+					total = 2
+					vrt.Go("periodic-reporter", func() { g.Result(q, 10); done.Send("j", struct{}{}) })
+					final, _, _ = g.Result(q, 10)
+					done.Recv("join")
+				case "message-during-interim-then-final":
+					h0.Write(msg)
+					total = 3
+					vrt.Go("periodic-reporter", func() { g.Result(q, 10); done.Send("j", struct{}{}) })
+					vrt.Go("server-bytes", func() { h1.Write(msg); h1.Write(msg); done.Send("j", struct{}{}) })
+					done.Recv("join")
+					done.Recv("join")
+					final, _, _ = g.Result(q, 10)
+				case "two-servers-and-interim":
+					total = 4
+					vrt.Go("periodic-reporter", func() { g.Result(q, 10); done.Send("j", struct{}{}) })
+					vrt.Go("server-bytes-0", func() { h0.Write(msg); h0.Write(msg); done.Send("j", struct{}{}) })
+					vrt.Go("server-bytes-1", func() { h1.Write(msg); h1.Write(msg); done.Send("j", struct{}{}) })
+					for i := 0; i < 3; i++ {
+						done.Recv("join")
+					}
+					final, _, _ = g.Result(q, 10)
+				}
+				rows := strings.Split(strings.TrimSpace(final), "\n")
+				cells := strings.Split(rows[len(rows)-1], "|")
+				if len(cells) != 2 || strings.TrimSpace(cells[0]) != fmt.Sprint(total) || strings.TrimSpace(cells[1]) != fmt.Sprintf("%f", float64(2*total)) {
+					viol = fmt.Sprintf("%s: the servers sent %d partial results (count 1, sum 2 each, one group); the final result is %q, the central evaluation is count %d, sum %d", variant, total, final, total, 2*total)
+				}
+			})
+			if res.Fail != nil {
+				return "fail:" + res.Fail.Kind, res.Fail.Error(), res
+			}
+			if viol != "" {
+				return "wrong", viol, res
+			}
+			return "ok", "", res
+		}
+		c.Explore(sc, 2, func(msg string, v *explore.Violation) string {
+			switch {
+			case strings.HasPrefix(msg, "panic"):
+				return "panic"
+			case strings.HasPrefix(msg, "deadlock"):
+				return "deadlock"
+			}
+			return "final-result-wrong-when-reports-and-messages-overlap"
+		})
+	}
+}
+
 func c05Run(c *Ctx) {
 	full := c.Thorough()
 	n := 2
@@ -625,8 +705,9 @@ func init() {
 			"to cells {server0/file0/interval0, server0/file0/interval1, server0/file1, server1/file0}, x ~150 queries (select lists over count/sum/min/max/avg/len/last, where none/float/string, group by k/default, order/rorder/limit, set); " +
 			"each runs the real server Aggregate per server (lines fed per file, Serialize at the interval boundary), the real client MaprHandler/client.Aggregate and GlobalGroupSet.WriteResult; differential oracle: CSV result of the partitioned run == " +
 			"CSV result of the same code with the trivial partition (float tolerance 1e-9, ties in any order, limit keeps the best rows); last/len only on group-constant fields so that no choice is involved; non-trivial = non-trivial partition and non-empty result",
-		Assumptions: []string{"canonical schedule (C06 explores schedules); interval boundaries are placed at quiescent points"},
+		Assumptions: []string{"canonical schedule for the table x partition x query product (C06 explores schedules); interval boundaries are placed at quiescent points; the client's reporting path (interim report, final report, arriving partial results) is explored under all schedules within 2 deviations"},
 		Run: func(c *Ctx) {
+			c05Reporting(c)
 			res := vrt.Run(vrt.Config{MaxSteps: 1 << 50, Horizon: 1 << 60}, func() {
 				args := DefaultArgs()
 				args.Logger = "none"
